@@ -193,11 +193,17 @@ Attrs(tok, style, i) ==
                  ELSE Value(as[j].v, QuoteCh(style, j), Mode(style, i + j), FALSE))])
 
 PseudoAttr(name, val, style, j) == Req(style) \o name \o Eq(style) \o PlainQuoted(val, style, j)
+\* the lexical variant "mismatch" of an XML declaration: the version literal opens with one quotation mark and closes
+\* with the other ([24] VersionInfo: the same mark on both sides)
+XLex(tok) == IF "lex" \in DOMAIN tok THEN tok.lex ELSE "ok"
+MismatchQuoted(s, style, j) == LET q == QuoteCh(style, j) IN <<q>> \o s \o <<IF q = 34 THEN 39 ELSE 34>>
+PseudoAttrX(name, val, style, j, lex) ==
+  IF lex = "mismatch" THEN Req(style) \o name \o Eq(style) \o MismatchQuoted(val, style, j) ELSE PseudoAttr(name, val, style, j)
 
 Tok(tok, style, i, asEmptyTag) ==
   LET k == tok.k
   IN CASE k = "xmldecl" ->
-            S_XMLDECL \o PseudoAttr(S_VERSION, tok.ver, style, 1)
+            S_XMLDECL \o PseudoAttrX(S_VERSION, tok.ver, style, 1, XLex(tok))
             \o (IF tok.enc # <<>> THEN PseudoAttr(S_ENCODING, tok.enc, style, 2) ELSE <<>>)
             \o (IF tok.sa # "none" THEN PseudoAttr(S_STANDALONE, IF tok.sa = "yes" THEN S_YES ELSE S_NO, style, 3) ELSE <<>>)
             \o Opt(style) \o S_PIEND
